@@ -59,9 +59,25 @@ type gfile struct {
 	Reexp   []string  `json:"reexp"`
 	Rx      []grx     `json:"rx"`
 	Dyn     []string  `json:"dyn"`
+	Req     []string  `json:"req"` // require() calls at the top level of the body
+	Cjs     bool      `json:"cjs"` // written in CommonJS syntax
+	Ldr     string    `json:"ldr"` // js | ts | tsx | jsx | json | css
 }
 
+// ext is the extension of the source file of a module parsed by the given loader
+func ext(ldr string) string {
+	switch ldr {
+	case "ts", "tsx", "jsx", "json", "css":
+		return "." + ldr
+	}
+	return ".js"
+}
+
+// hasBody: the module reports through probes (style sheets and JSON data do not)
+func (f *gfile) hasBody() bool { return f.Ldr != "css" && f.Ldr != "json" }
+
 type expChunk struct {
+	Kind    string      `json:"kind"` // js | css
 	Bits    []string    `json:"bits"`
 	Files   []string    `json:"files"`
 	Entry   string      `json:"entry"`
@@ -106,6 +122,15 @@ type expect struct {
 	Tables     map[string][]expExport     `json:"tables"` // the resolved export table (namespace) of every live file
 	Closure    map[string][]string        `json:"closure"`
 	Subsets    []expSubset                `json:"subsets"`
+	Wrap       map[string]string          `json:"wrap"`     // wrap kind of every live file: none | esm | cjs
+	Uses       []expUse                   `json:"uses"`     // symbol uses (bindings, wrappers, exports objects) by file
+	Features   []string                   `json:"features"` // feature labels of the graph
+}
+
+type expUse struct {
+	By   string `json:"by"`
+	File string `json:"file"`
+	Name string `json:"name"`
 }
 
 // binds lists the modules whose binding triples the body of m reads and bumps, in order
@@ -165,10 +190,45 @@ func local(alias, via string) string { return alias + "_of_" + via }
 // render writes the source text of one module.  Every name a statement imports or re-exports comes from the export
 // tables the specification computed (expect.tables); `export *` is the only statement whose meaning the text leaves
 // to the ES semantics.
-func (c *gcase) render(f *gfile, isUserEntry bool) string {
+//
+// native = the reading of the same graph that Node's ESM loader can run without a bundler (the cross-validation of
+// the spec's prediction): every module is a .js ES module, a require() is a namespace import, a module written in
+// CommonJS syntax is written as the ES module with the same exports, a style sheet import is dropped, type annotations
+// are left out.  It differs from the bundled reading only in the relative order of different modules' top-level code,
+// which is not compared.
+func (c *gcase) render(f *gfile, isUserEntry bool, native bool) string {
 	var sb strings.Builder
 	m := f.Name
+	path := func(to string) string {
+		if native {
+			return "./" + to + ".js"
+		}
+		return "./" + to + ext(c.file(to).Ldr)
+	}
+	switch f.Ldr {
+	case "css":
+		return fmt.Sprintf(".%s { color: #0000%02d }\n", m, f.Base)
+	case "json":
+		if native {
+			return fmt.Sprintf("export default %d;\n", c.Expect.Dval[m])
+		}
+		return fmt.Sprintf("%d\n", c.Expect.Dval[m])
+	}
+	if f.Cjs && !native {
+		return c.renderCJS(f)
+	}
+	if native {
+		for _, t := range f.Req {
+			fmt.Fprintf(&sb, "import * as req_%s from '%s';\n", t, path(t))
+		}
+	}
 	for _, imp := range f.Imports {
+		if c.file(imp.To).Ldr == "css" {
+			if !native {
+				fmt.Fprintf(&sb, "import '%s';\n", path(imp.To))
+			}
+			continue
+		}
 		var specs []string
 		if imp.Bind {
 			for _, x := range c.Expect.table(imp.To) {
@@ -176,9 +236,9 @@ func (c *gcase) render(f *gfile, isUserEntry bool) string {
 			}
 		}
 		if len(specs) > 0 {
-			fmt.Fprintf(&sb, "import { %s } from './%s.js';\n", strings.Join(specs, ", "), imp.To)
+			fmt.Fprintf(&sb, "import { %s } from '%s';\n", strings.Join(specs, ", "), path(imp.To))
 		} else {
-			fmt.Fprintf(&sb, "import './%s.js';\n", imp.To)
+			fmt.Fprintf(&sb, "import '%s';\n", path(imp.To))
 		}
 	}
 	edges := []grx{}
@@ -190,9 +250,9 @@ func (c *gcase) render(f *gfile, isUserEntry bool) string {
 		tab := c.Expect.table(e.To)
 		switch e.Kind {
 		case "star":
-			fmt.Fprintf(&sb, "export * from './%s.js';\n", e.To)
+			fmt.Fprintf(&sb, "export * from '%s';\n", path(e.To))
 		case "ns":
-			fmt.Fprintf(&sb, "export * as ns_%s from './%s.js';\n", e.To, e.To)
+			fmt.Fprintf(&sb, "export * as ns_%s from '%s';\n", e.To, path(e.To))
 		case "named", "rename":
 			var specs []string
 			for _, x := range tab {
@@ -202,7 +262,7 @@ func (c *gcase) render(f *gfile, isUserEntry bool) string {
 					specs = append(specs, x.Alias)
 				}
 			}
-			fmt.Fprintf(&sb, "export { %s } from './%s.js';\n", strings.Join(specs, ", "), e.To)
+			fmt.Fprintf(&sb, "export { %s } from '%s';\n", strings.Join(specs, ", "), path(e.To))
 		case "imex":
 			var imps, exps []string
 			for _, x := range tab {
@@ -211,16 +271,26 @@ func (c *gcase) render(f *gfile, isUserEntry bool) string {
 				exps = append(exps, fmt.Sprintf("%s as %s", l, x.Alias))
 			}
 			if len(imps) > 0 {
-				fmt.Fprintf(&sb, "import { %s } from './%s.js';\nexport { %s };\n", strings.Join(imps, ", "), e.To, strings.Join(exps, ", "))
+				fmt.Fprintf(&sb, "import { %s } from '%s';\nexport { %s };\n", strings.Join(imps, ", "), path(e.To), strings.Join(exps, ", "))
 			} else {
-				fmt.Fprintf(&sb, "import './%s.js';\n", e.To)
+				fmt.Fprintf(&sb, "import '%s';\n", path(e.To))
 			}
 		}
 	}
 	x := f.Sfx
 	fmt.Fprintf(&sb, "__probe(%q, \"start:%s=0\");\n", m, m)
-	fmt.Fprintf(&sb, "let id%s = %d;\nfunction helper%s() { return id%s }\n", x, f.Base, x, x)
+	ann := ""
+	if !native && (f.Ldr == "ts" || f.Ldr == "tsx") {
+		ann = ": number"
+	}
+	fmt.Fprintf(&sb, "let id%s%s = %d;\nfunction helper%s()%s { return id%s }\n", x, ann, f.Base, x, ann, x)
 	fmt.Fprintf(&sb, "__probe(%q, \"helper:%s=\" + helper%s());\n", m, m, x)
+	for _, t := range f.Req {
+		if !native {
+			fmt.Fprintf(&sb, "const req_%s = require('%s');\n", t, path(t))
+		}
+		fmt.Fprintf(&sb, "__probe(%q, \"req:%s=\" + (req_%s.v%s === undefined ? -1 : req_%s.v%s));\n", m, t, t, c.file(t).Sfx, t, c.file(t).Sfx)
+	}
 	if f.Exports {
 		sum := []string{}
 		for _, imp := range f.Imports {
@@ -253,8 +323,8 @@ func (c *gcase) render(f *gfile, isUserEntry bool) string {
 	}
 	for _, d := range f.Dyn {
 		// every name of the namespace is read; its `v` and the number of names are reported
-		fmt.Fprintf(&sb, "__track(%q, import('./%s.js').then((ns) => { for (const k of Object.keys(ns)) void ns[k]; __probe(%q, \"dyn:%s=\" + (ns.v%s === undefined ? -1 : ns.v%s)); __probe(%q, \"dynkeys:%s=\" + Object.keys(ns).length) }));\n",
-			m, d, m, d, c.file(d).Sfx, c.file(d).Sfx, m, d)
+		fmt.Fprintf(&sb, "__track(%q, import('%s').then((ns) => { for (const k of Object.keys(ns)) void ns[k]; __probe(%q, \"dyn:%s=\" + (ns.v%s === undefined ? -1 : ns.v%s)); __probe(%q, \"dynkeys:%s=\" + Object.keys(ns).length) }));\n",
+			m, path(d), m, d, c.file(d).Sfx, c.file(d).Sfx, m, d)
 	}
 	if isUserEntry {
 		var peeks, pokes []string
@@ -271,6 +341,29 @@ func (c *gcase) render(f *gfile, isUserEntry bool) string {
 	return sb.String()
 }
 
+// renderCJS writes a module in CommonJS syntax: the same probes and the same exports (v, c, bump) as properties of
+// `exports` (c is read through the exports object, so importers see it change)
+func (c *gcase) renderCJS(f *gfile) string {
+	var sb strings.Builder
+	m, x := f.Name, f.Sfx
+	fmt.Fprintf(&sb, "__probe(%q, \"start:%s=0\");\n", m, m)
+	fmt.Fprintf(&sb, "let id%s = %d;\nfunction helper%s() { return id%s }\n", x, f.Base, x, x)
+	fmt.Fprintf(&sb, "__probe(%q, \"helper:%s=\" + helper%s());\n", m, m, x)
+	for _, t := range f.Req {
+		fmt.Fprintf(&sb, "const req_%s = require('./%s%s');\n", t, t, ext(c.file(t).Ldr))
+		fmt.Fprintf(&sb, "__probe(%q, \"req:%s=\" + (req_%s.v%s === undefined ? -1 : req_%s.v%s));\n", m, t, t, c.file(t).Sfx, t, c.file(t).Sfx)
+	}
+	if f.Exports {
+		fmt.Fprintf(&sb, "exports.v%s = %d + 2 * (0);\nexports.c%s = 0;\nexports.bump%s = function () { exports.c%s += 1; return exports.c%s };\n", x, f.Base, x, x, x, x)
+		fmt.Fprintf(&sb, "__probe(%q, \"own:%s=\" + exports.v%s);\n", m, m, x)
+	}
+	fmt.Fprintf(&sb, "__probe(%q, \"end:%s=0\");\n", m, m)
+	return sb.String()
+}
+
+func (c *gcase) srcPath(name string) string { return "src/" + name + ext(c.file(name).Ldr) }
+
+// sources: the project the bundler reads (src/) and the native reading of the same graph (native/)
 func (c *gcase) sources() map[string]string {
 	user := map[string]bool{}
 	for _, e := range c.Entries {
@@ -279,8 +372,13 @@ func (c *gcase) sources() map[string]string {
 	out := map[string]string{}
 	for i := range c.Files {
 		f := &c.Files[i]
-		out["src/"+f.Name+".js"] = c.render(f, user[f.Name])
+		out[c.srcPath(f.Name)] = c.render(f, user[f.Name], false)
+		if f.Ldr != "css" {
+			out["native/"+f.Name+".js"] = c.render(f, user[f.Name], true)
+		}
 	}
+	// (the bundler decides between CommonJS and ES syntax by the text of a file, not by a package.json of type module)
+	out["src/package.json"] = "{}\n"
 	return out
 }
 
@@ -312,6 +410,23 @@ type ldFile struct {
 	IsEntry bool   `json:"isEntry"`
 	Bits    []int  `json:"bits"`
 	Kind    string `json:"kind"`
+	Wrap    string `json:"wrap"`
+}
+
+// specNameOf is the name of a file of the link.done projection in the vocabulary of the specification: the base name
+// without the extension; the JS stub the bundler creates for a style sheet imported from JS (same path, JS
+// representation) is not a file of the specification's alphabet, like the runtime
+func (f *ldFile) specNameOf() string {
+	b := filepath.Base(f.Pretty)
+	if f.Kind == "js" && strings.HasSuffix(b, ".css") {
+		return b + "#stub"
+	}
+	for _, e := range []string{".js", ".ts", ".tsx", ".jsx", ".json", ".css"} {
+		if strings.HasSuffix(b, e) {
+			return strings.TrimSuffix(b, e)
+		}
+	}
+	return b
 }
 
 type ldChunk struct {
@@ -388,6 +503,7 @@ type srFile struct {
 	Live    bool  `json:"live"`
 	Bits    []int `json:"bits"`
 	IsEntry bool  `json:"isEntry"`
+	Css     bool  `json:"css"`
 }
 type srImport struct {
 	Chunk int    `json:"chunk"`
@@ -403,6 +519,7 @@ type srImportFrom struct {
 	Alias string `json:"alias"`
 }
 type srChunk struct {
+	Kind        string         `json:"kind"`
 	Bits        []int          `json:"bits"`
 	IsEntry     bool           `json:"isEntry"`
 	Entry       int            `json:"entry"`
@@ -421,6 +538,7 @@ type srEmAssign struct {
 	Name string `json:"name"`
 }
 type srEmitted struct {
+	Kind       string       `json:"kind"` // js | css
 	IsEntry    bool         `json:"isEntry"`
 	Imports    []srEmImport `json:"imports"`
 	Dyn        []int        `json:"dyn"`
@@ -433,6 +551,11 @@ type srEexport struct {
 	File  int    `json:"file"`
 	Name  string `json:"name"`
 }
+type srUse struct {
+	By   int    `json:"by"`
+	File int    `json:"file"`
+	Name string `json:"name"`
+}
 type stateRecord struct {
 	ID      int         `json:"id"`
 	Files   []srFile    `json:"files"`
@@ -441,16 +564,15 @@ type stateRecord struct {
 	Emitted []srEmitted `json:"emitted"`
 	// what the entry points export according to the specification (TableOf), in the linker's file ids
 	Eexports []srEexport `json:"eexports"`
+	// the symbol uses the specification predicts (bindings, wrappers init_x / require_x, exports objects), in the
+	// linker's file ids
+	Uses []srUse `json:"uses"`
 	// not serialised
 	cs     *gcase
 	config string
 	detail map[string]interface{}
 }
 
-func nameOfPretty(p string) string {
-	b := filepath.Base(p)
-	return strings.TrimSuffix(b, ".js")
-}
 
 // ---------------------------------------------------------------------------
 // node jobs and results
@@ -496,6 +618,7 @@ type anDyn struct {
 	Path string  `json:"path"`
 }
 type anFile struct {
+	Kind       string     `json:"kind"` // js | css
 	File       string     `json:"file"`
 	Imports    []anImport `json:"imports"`
 	Dyn        []anDyn    `json:"dyn"`
@@ -750,19 +873,24 @@ type builtSplit struct {
 	public   string
 	errors   []string
 	nOutputs int
+	// entry point metadata of the metafile: source path -> the outputs that name it as their entry point; JS output ->
+	// its CSS bundle
+	entryOutputs map[string][]string
+	cssBundle    map[string]string
 }
 
 type metaOut struct {
 	Outputs map[string]struct {
 		EntryPoint string `json:"entryPoint"`
+		CSSBundle  string `json:"cssBundle"`
 	} `json:"outputs"`
 }
 
 func (c *gcase) buildSplit(root string, cfg buildConfig) *builtSplit {
-	out := &builtSplit{cfg: cfg, outdir: filepath.Join(root, "out-"+cfg.Name), isEntry: map[string]bool{}}
+	out := &builtSplit{cfg: cfg, outdir: filepath.Join(root, "out-"+cfg.Name), isEntry: map[string]bool{}, entryOutputs: map[string][]string{}, cssBundle: map[string]string{}}
 	var eps []string
 	for _, e := range c.Entries {
-		eps = append(eps, "src/"+e+".js")
+		eps = append(eps, c.srcPath(e))
 	}
 	opts := api.BuildOptions{
 		AbsWorkingDir: root,
@@ -809,7 +937,16 @@ func (c *gcase) buildSplit(root string, cfg buildConfig) *builtSplit {
 		rel = filepath.ToSlash(rel)
 		if o.EntryPoint != "" {
 			out.isEntry[rel] = true
-			byEntry[o.EntryPoint] = rel
+			out.entryOutputs[o.EntryPoint] = append(out.entryOutputs[o.EntryPoint], rel)
+			// (should an entry point be named by several outputs, the report is made in evaluateCase; the JS one is loaded)
+			if _, have := byEntry[o.EntryPoint]; !have || strings.HasSuffix(rel, ".js") {
+				byEntry[o.EntryPoint] = rel
+			}
+		}
+		if o.CSSBundle != "" {
+			if crel, err := filepath.Rel(out.outdir, filepath.Join(root, o.CSSBundle)); err == nil {
+				out.cssBundle[rel] = filepath.ToSlash(crel)
+			}
 		}
 	}
 	for _, ep := range eps {
@@ -822,7 +959,7 @@ func (c *gcase) buildUnsplit(root string, entry string, minify bool) (string, []
 	dir := filepath.Join(root, fmt.Sprintf("unsplit-%s-%v", entry, minify))
 	opts := api.BuildOptions{
 		AbsWorkingDir: root,
-		EntryPoints:   []string{"src/" + entry + ".js"},
+		EntryPoints:   []string{c.srcPath(entry)},
 		Outfile:       filepath.Join(dir, entry+".js"),
 		Bundle:        true,
 		Format:        api.FormatESModule,
@@ -849,12 +986,28 @@ type realChunk struct {
 	Entry   string
 	Static  []string // keys of bit sets
 	Dynamic []string
+	// static imports that carry nothing but runtime helpers (__esm, __commonJS, __toESM, ...): the runtime file is
+	// outside the alphabet of the specification, so such an edge is compared only if the specification has it too
+	HelperStatic []string
 }
 
 func (c *gcase) comparePartition(d *ldData) (diff []string, shared int) {
 	nameOf := map[int]string{}
-	for _, f := range d.Files {
-		nameOf[f.Idx] = nameOfPretty(f.Pretty)
+	for i := range d.Files {
+		nameOf[d.Files[i].Idx] = d.Files[i].specNameOf()
+	}
+	// the wrap kind of every file (a derived attribute the chunk graph depends on)
+	for i := range d.Files {
+		f := &d.Files[i]
+		if w, ok := c.Expect.Wrap[nameOf[f.Idx]]; ok && f.Kind == "js" && f.IsLive && f.Wrap != w {
+			diff = append(diff, fmt.Sprintf("file %s: wrap kind %s, spec %s", nameOf[f.Idx], f.Wrap, w))
+		}
+	}
+	kindOf := func(k string) string {
+		if k == "css" {
+			return "css"
+		}
+		return "js"
 	}
 	entryName := func(bit int) string {
 		if bit < 0 || bit >= len(d.Entries) {
@@ -883,9 +1036,26 @@ func (c *gcase) comparePartition(d *ldData) (diff []string, shared int) {
 				n++
 			}
 		}
-		if n == 0 && !ch.IsEntry && len(ch.Files) > 0 {
+		if n == 0 && !ch.IsEntry && len(ch.Files) > 0 && ch.Kind != "css" {
 			helperOnly[i] = true
 		}
+	}
+	// does chunk ch import from chunk `from` symbols of non-user files (the runtime) only?
+	helperEdge := func(ch ldChunk, from int) bool {
+		n := 0
+		for _, f := range ch.ImportsFrom {
+			if f.Chunk != from {
+				continue
+			}
+			for _, a := range f.Aliases {
+				x, ok := d.Chunks[from].Exports[a]
+				if !ok || user[nameOf[x.File]] {
+					return false
+				}
+				n++
+			}
+		}
+		return n > 0
 	}
 	real := map[string]realChunk{}
 	for ci, ch := range d.Chunks {
@@ -912,17 +1082,22 @@ func (c *gcase) comparePartition(d *ldData) (diff []string, shared int) {
 				continue
 			}
 			k := bitsKey(d.Chunks[imp.Chunk].Bits)
+			if d.Chunks[imp.Chunk].Kind == "css" {
+				k = "css:" + k // (never expected: a JS chunk does not import a CSS chunk)
+			}
 			if imp.Kind == 3 {
 				rc.Dynamic = append(rc.Dynamic, k)
+			} else if helperEdge(ch, imp.Chunk) {
+				rc.HelperStatic = append(rc.HelperStatic, k)
 			} else {
 				rc.Static = append(rc.Static, k)
 			}
 		}
-		real[setKey(rc.Bits)] = rc
+		real[kindOf(ch.Kind)+":"+setKey(rc.Bits)] = rc
 	}
 	want := map[string]expChunk{}
 	for _, ch := range c.Expect.Chunks {
-		want[setKey(ch.Bits)] = ch
+		want[kindOf(ch.Kind)+":"+setKey(ch.Bits)] = ch
 	}
 	for k, w := range want {
 		r, ok := real[k]
@@ -943,8 +1118,16 @@ func (c *gcase) comparePartition(d *ldData) (diff []string, shared int) {
 		for _, s := range w.Dynamic {
 			wd = append(wd, setKey(s))
 		}
-		if strings.Join(sortedCopy(r.Static), ";") != strings.Join(sortedCopy(ws), ";") {
-			diff = append(diff, fmt.Sprintf("chunk {%s}: static imports %v, spec %v", k, sortedCopy(r.Static), sortedCopy(ws)))
+		rs := append([]string{}, r.Static...)
+		for _, h := range r.HelperStatic {
+			for _, x := range ws {
+				if x == h {
+					rs = append(rs, h)
+				}
+			}
+		}
+		if strings.Join(sortedCopy(rs), ";") != strings.Join(sortedCopy(ws), ";") {
+			diff = append(diff, fmt.Sprintf("chunk {%s}: static imports %v, spec %v", k, sortedCopy(rs), sortedCopy(ws)))
 		}
 		if strings.Join(sortedCopy(r.Dynamic), ";") != strings.Join(sortedCopy(wd), ";") {
 			diff = append(diff, fmt.Sprintf("chunk {%s}: dynamic imports %v, spec %v", k, sortedCopy(r.Dynamic), sortedCopy(wd)))
@@ -962,14 +1145,33 @@ func (c *gcase) comparePartition(d *ldData) (diff []string, shared int) {
 // ---------------------------------------------------------------------------
 // state records
 
+func kindOfChunk(k string) string {
+	if k == "css" {
+		return "css"
+	}
+	return "js"
+}
+
 func makeRecord(c *gcase, b *builtSplit, an []anFile) *stateRecord {
 	d := b.link
-	rec := &stateRecord{cs: c, config: b.cfg.Name, Files: []srFile{}, Entries: []int{}, Chunks: []srChunk{}, Emitted: []srEmitted{}, Eexports: []srEexport{}}
+	rec := &stateRecord{cs: c, config: b.cfg.Name, Files: []srFile{}, Entries: []int{}, Chunks: []srChunk{}, Emitted: []srEmitted{}, Eexports: []srEexport{}, Uses: []srUse{}}
 	idOf := map[string]int{}
 	nameOfID := map[int]string{}
-	for _, f := range d.Files {
-		idOf[nameOfPretty(f.Pretty)] = f.Idx + 1
-		nameOfID[f.Idx+1] = nameOfPretty(f.Pretty)
+	for i := range d.Files {
+		f := &d.Files[i]
+		idOf[f.specNameOf()] = f.Idx + 1
+		nameOfID[f.Idx+1] = f.specNameOf()
+	}
+	// the entry chunk of a wrapped entry point calls the wrapper of the entry point
+	for _, e := range c.Expect.AllEntries {
+		if w := c.Expect.Wrap[e]; idOf[e] > 0 && w != "" && w != "none" {
+			rec.Eexports = append(rec.Eexports, srEexport{Entry: idOf[e], File: idOf[e], Name: "wrapper"})
+		}
+	}
+	for _, u := range c.Expect.Uses {
+		if idOf[u.By] > 0 && idOf[u.File] > 0 {
+			rec.Uses = append(rec.Uses, srUse{By: idOf[u.By], File: idOf[u.File], Name: u.Name})
+		}
 	}
 	for _, e := range c.Expect.AllEntries {
 		for _, x := range c.Expect.Tables[e] {
@@ -985,6 +1187,8 @@ func makeRecord(c *gcase, b *builtSplit, an []anFile) *stateRecord {
 			return "default"
 		case nameOfID[file] + "_exports", "exports":
 			return "*"
+		case "init_" + nameOfID[file], "require_" + nameOfID[file]:
+			return "wrapper"
 		}
 		return orig
 	}
@@ -998,17 +1202,17 @@ func makeRecord(c *gcase, b *builtSplit, an []anFile) *stateRecord {
 		rec.Entries = append(rec.Entries, e.SourceIndex+1)
 	}
 	for _, f := range d.Files {
-		if f.Kind != "js" {
+		if f.Kind != "js" && f.Kind != "css" {
 			continue
 		}
-		sf := srFile{ID: f.Idx + 1, Live: f.IsLive, IsEntry: f.IsEntry, Bits: []int{}}
+		sf := srFile{ID: f.Idx + 1, Live: f.IsLive, IsEntry: f.IsEntry, Bits: []int{}, Css: f.Kind == "css"}
 		for _, bit := range f.Bits {
 			sf.Bits = append(sf.Bits, entryFile(bit))
 		}
 		rec.Files = append(rec.Files, sf)
 	}
 	for _, ch := range d.Chunks {
-		sc := srChunk{IsEntry: ch.IsEntry, Bits: []int{}, Files: []int{}, Imports: []srImport{}, Exports: []srExport{}, ImportsFrom: []srImportFrom{}, ExportCount: ch.ExportCount}
+		sc := srChunk{Kind: kindOfChunk(ch.Kind), IsEntry: ch.IsEntry, Bits: []int{}, Files: []int{}, Imports: []srImport{}, Exports: []srExport{}, ImportsFrom: []srImportFrom{}, ExportCount: ch.ExportCount}
 		if ch.IsEntry {
 			sc.Entry = ch.SourceIndex + 1
 		}
@@ -1045,7 +1249,7 @@ func makeRecord(c *gcase, b *builtSplit, an []anFile) *stateRecord {
 		index[f.File] = i + 1
 	}
 	for _, f := range an {
-		em := srEmitted{IsEntry: b.isEntry[f.File], Imports: []srEmImport{}, Dyn: []int{}, Exports: append([]string{}, f.Exports...), Assigns: []srEmAssign{}, ParseError: f.ParseError != ""}
+		em := srEmitted{Kind: kindOfChunk(f.Kind), IsEntry: b.isEntry[f.File], Imports: []srEmImport{}, Dyn: []int{}, Exports: append([]string{}, f.Exports...), Assigns: []srEmAssign{}, ParseError: f.ParseError != ""}
 		for _, imp := range f.Imports {
 			to := 0
 			if imp.To != nil {
@@ -1220,7 +1424,7 @@ func prepareCase(r *core.Run, idx int, c *gcase, configs []buildConfig) *prepare
 	}
 	// node jobs: the source natively (one order per subset: the prediction does not depend on the order),
 	// the unsplit bundles, the split outputs (every subset in every order)
-	p.jobs = []nodeJob{{ID: p.jobID("native"), Dir: filepath.Join(root, "src"), Entries: entryFiles, Names: c.Entries, Sequences: subsetSequences(p.seqs)}}
+	p.jobs = []nodeJob{{ID: p.jobID("native"), Dir: filepath.Join(root, "native"), Entries: entryFiles, Names: c.Entries, Sequences: subsetSequences(p.seqs)}}
 	for minify, dirs := range p.unsplitDirs {
 		for ei, e := range c.Entries {
 			if _, err := os.Stat(filepath.Join(dirs[e], e+".js")); err == nil {
@@ -1318,6 +1522,29 @@ func evaluateCase(r *core.Run, p *prepared, byID map[string]*nodeResult) (out ca
 				r.Violation(key("outputs"), fmt.Sprintf("%s (%s): an entry point has no output file", c.Label, b.cfg.Name), replay(map[string]interface{}{"emitted": emitted}))
 			}
 		}
+		// entry point metadata: every entry point (user or import() target) is named by exactly one output, a JS file; the
+		// CSS bundle it names exists
+		cssWanted := map[string]bool{}
+		for _, ch := range c.Expect.Chunks {
+			if ch.Kind == "css" {
+				cssWanted[ch.Entry] = true
+			}
+		}
+		for _, e := range c.Expect.AllEntries {
+			outs := b.entryOutputs[c.srcPath(e)]
+			if len(outs) != 1 || !strings.HasSuffix(outs[0], ".js") {
+				r.Violation(key("entry-metadata"), fmt.Sprintf("%s (%s): the entry point %s is named by the outputs %v, expected exactly one JS file", c.Label, b.cfg.Name, e, outs),
+					replay(map[string]interface{}{"emitted": emitted, "entryOutputs": b.entryOutputs}))
+				continue
+			}
+			css := b.cssBundle[outs[0]]
+			if _, exists := emitted[css]; css != "" && !exists {
+				r.Violation(key("css-chunk"), fmt.Sprintf("%s (%s): the CSS bundle %s of entry point %s was not written", c.Label, b.cfg.Name, css, e), replay(map[string]interface{}{"emitted": emitted}))
+			}
+			if (css != "") != cssWanted[e] {
+				r.Drift("case %s (%s): entry point %s has the CSS bundle %q, the spec's two-chunk rule says %v", c.Label, b.cfg.Name, e, css, cssWanted[e])
+			}
+		}
 		runBad := false
 		for i := range res.Runs {
 			out.runs++
@@ -1373,7 +1600,7 @@ func genConfigs(r *core.Run) ([]genCfg, error) {
 		return nil, err
 	}
 	tmpl := string(b)
-	for _, line := range []string{"Shapes <- ShapesQuick", "Pick = 1", "PickTwo = TRUE", "Half = 0", "ChainPick = 1", "ChainDiv = 12", "NamePick = 1"} {
+	for _, line := range []string{"Shapes <- ShapesQuick", "Pick = 1", "PickTwo = TRUE", "Half = 0", "ChainPick = 1", "ChainDiv = 12", "NamePick = 1", "WrapPick = 1", "LoaderPick = 1"} {
 		if !strings.Contains(tmpl, "\n  "+line+"\n") {
 			return nil, fmt.Errorf("unexpected shape of LinkGen.quick.cfg (no line %q)", line)
 		}
@@ -1389,6 +1616,7 @@ func genConfigs(r *core.Run) ([]genCfg, error) {
 		half                int
 		chainPick, chainDiv int
 		namePick            int
+		wrapPick, ldrPick   int
 	}
 	mk := func(name string, x slice) genCfg {
 		// (the constant lines, not the header comment)
@@ -1400,25 +1628,31 @@ func genConfigs(r *core.Run) ([]genCfg, error) {
 		t = rep(t, "ChainPick = 1", fmt.Sprintf("ChainPick = %d", x.chainPick))
 		t = rep(t, "ChainDiv = 12", fmt.Sprintf("ChainDiv = %d", x.chainDiv))
 		t = rep(t, "NamePick = 1", fmt.Sprintf("NamePick = %d", x.namePick))
+		t = rep(t, "WrapPick = 1", fmt.Sprintf("WrapPick = %d", x.wrapPick))
+		t = rep(t, "LoaderPick = 1", fmt.Sprintf("LoaderPick = %d", x.ldrPick))
 		return genCfg{"LinkGen." + name + ".cfg", t}
 	}
 	inc := func(shapes string, pick int, two bool, half int) genCfg {
-		return mk(fmt.Sprintf("%s.%d", shapes, half), slice{shapes: shapes, pick: pick, two: two, half: half, chainPick: 9999, chainDiv: 1, namePick: 9999})
+		return mk(fmt.Sprintf("%s.%d", shapes, half), slice{shapes: shapes, pick: pick, two: two, half: half, chainPick: 9999, chainDiv: 1, namePick: 9999, wrapPick: 9999, ldrPick: 9999})
 	}
 	chains := func(pick, div, half int) genCfg {
-		return mk(fmt.Sprintf("chains.%d", half), slice{shapes: "ShapesNone", pick: 1, half: half, chainPick: pick, chainDiv: div, namePick: 9999})
+		return mk(fmt.Sprintf("chains.%d", half), slice{shapes: "ShapesNone", pick: 1, half: half, chainPick: pick, chainDiv: div, namePick: 9999, wrapPick: 9999, ldrPick: 9999})
 	}
 	names := func(pick, half int) genCfg {
-		return mk(fmt.Sprintf("names.%d", half), slice{shapes: "ShapesNone", pick: 1, half: half, chainPick: 9999, chainDiv: 1, namePick: pick})
+		return mk(fmt.Sprintf("names.%d", half), slice{shapes: "ShapesNone", pick: 1, half: half, chainPick: 9999, chainDiv: 1, namePick: pick, wrapPick: 9999, ldrPick: 9999})
+	}
+	// the wrap-kind family and the loader / CSS family (one run: both are small)
+	wraps := func(wpick, lpick, half int) genCfg {
+		return mk(fmt.Sprintf("wraps.%d", half), slice{shapes: "ShapesNone", pick: 1, half: half, chainPick: 9999, chainDiv: 1, namePick: 9999, wrapPick: wpick, ldrPick: lpick})
 	}
 	if !r.Thorough() {
 		// (k=3 over 3 modules: the half of the patterns chosen by the seed)
 		return []genCfg{inc("ShapesQuickB", pick, false, 0), chains(pick, 16, 1), chains(pick, 16, 2), inc("ShapesQuickA", pick, false, 1+pick%2),
-			names(pick, 0)}, nil
+			names(pick, 0), wraps(pick, pick, 0)}, nil
 	}
 	// the big slices first, each spread over two runs
 	out := []genCfg{chains(0, 1, 1), chains(0, 1, 2), inc("S33", 0, true, 1), inc("S33", 0, true, 2), inc("S34", pick, true, 1), inc("S34", pick, true, 2),
-		names(0, 1), names(0, 2)}
+		names(0, 1), names(0, 2), wraps(0, 0, 1), wraps(0, 0, 2)}
 	for _, s := range []string{"S24", "S32", "S23", "S22", "S31", "S21"} {
 		out = append(out, inc(s, 0, true, 0))
 	}
@@ -1462,9 +1696,18 @@ func Run(r *core.Run) {
 		r.Infra("cannot derive the generator configs: %v", err)
 		return
 	}
+	if only := os.Getenv("C10_CFGS"); only != "" { // developer filter: generator slices whose name contains the string
+		var keep []genCfg
+		for _, g := range cfgs {
+			if strings.Contains(g.name, only) {
+				keep = append(keep, g)
+			}
+		}
+		cfgs = keep
+	}
 	var cmu sync.Mutex
 	designBroken := false
-	core.Parallel(len(cfgs), 4, func(i int) {
+	core.Parallel(len(cfgs), r.Pick(6, 4), func(i int) {
 		res := tlcrun.MustHold(r, tlcrun.Options{Module: "LinkGen", Config: cfgs[i].name, Workers: 2, TimeoutSec: r.Pick(900, 3000),
 			Files: map[string]string{cfgs[i].name: cfgs[i].text},
 			OnCase: func(raw []byte) {
@@ -1502,7 +1745,7 @@ func Run(r *core.Run) {
 	}
 	runCases(r, cases, func(i int) []buildConfig {
 		configs := []buildConfig{cfgPlain}
-		if v := cases[i].Variant; r.Thorough() && (v == "names" || v == "rxchain") {
+		if v := cases[i].Variant; r.Thorough() && (v == "names" || v == "rxchain" || v == "wrap" || v == "loader") {
 			// (the big new families: a third configuration for every third graph)
 			configs = append(configs, cfgMinify)
 			if i%3 == 0 {
@@ -1510,7 +1753,7 @@ func Run(r *core.Run) {
 			}
 		} else if r.Thorough() {
 			configs = append(configs, cfgMinify, extraConfigs[i%len(extraConfigs)])
-		} else if v == "names" || v == "rxchain" {
+		} else if v == "names" || v == "rxchain" || v == "wrap" || v == "loader" {
 			// the collision renamers differ with and without minification: both, always
 			configs = append(configs, cfgMinify)
 		} else if (i+int(r.Seed))%2 == 0 {
@@ -1526,6 +1769,7 @@ func runCases(r *core.Run, cases []*gcase, configsFor func(i int) []buildConfig)
 	var mu sync.Mutex
 	var records []*stateRecord
 	variants := map[string]int{}
+	features := map[string]int{}
 	totalRuns, totalBuilds := 0, 0
 	// one Node process per batch of cases
 	const perBatch = 8
@@ -1562,6 +1806,9 @@ func runCases(r *core.Run, cases []*gcase, configsFor func(i int) []buildConfig)
 			mu.Lock()
 			records = append(records, oc.records...)
 			variants[c.Variant]++
+			for _, f := range c.Expect.Features {
+				features[f]++
+			}
 			totalRuns += oc.runs
 			totalBuilds += oc.builds
 			r.Case(c.Label, oc.shared >= 1)
@@ -1573,6 +1820,7 @@ func runCases(r *core.Run, cases []*gcase, configsFor func(i int) []buildConfig)
 		}
 	})
 	r.Set("variants", variants)
+	r.Set("features", features)
 	r.Set("load_sequences_run", totalRuns)
 	r.Set("builds", totalBuilds)
 	r.Set("link_states_recorded", len(records))
@@ -1587,7 +1835,7 @@ func runCases(r *core.Run, cases []*gcase, configsFor func(i int) []buildConfig)
 		}
 		validate(r, append([]*stateRecord{}, records[lo:hi]...))
 	})
-	r.Set("rule", "case = one graph of LinkGen.tla (incidence pattern of k entry points over n modules x feature variant x naming; re-export chain; naming of a shared chunk), built with splitting in 1-3 configurations, its link state validated by TLC against Link.tla and its chunks loaded in every subset and order of entry points; non-trivial = the real build produced at least one shared (non-entry) chunk")
+	r.Set("rule", "case = one graph of LinkGen.tla (incidence pattern of k entry points over n modules x feature variant x naming; re-export chain; naming of a shared chunk; wrap-kind pattern: how each entry point reaches a shared ES / CommonJS module; loader kind and CSS mode of an import() target), built with splitting in 1-3 configurations, its link state validated by TLC against Link.tla and its chunks loaded in every subset and order of entry points; non-trivial = the real build produced at least one shared (non-entry) chunk")
 }
 
 func init() { core.Register("C10", Run) }
